@@ -12,7 +12,8 @@ GEN_DEPENDS = []
 RULE = ("(pdm) random rose trees (1-12 leaves quick, up to 40 thorough; polytomies, unary nodes, fixed families, None/zero/dyadic lengths, "
         "any rooting flag, namespaces with extra members and shuffled bits): every ordered leaf pair x {patristic, edge count, mrca}, "
         "distances(), sums, mean-pairwise / nearest-taxon under random taxon filters, weighting and normalisation, treemeasure.patristic_distance, "
-        "NodeDistanceMatrix; (mrca) same trees x random/all taxon subsets x start node x {current, never encoded, stale} encodings x refresh flag "
+        "NodeDistanceMatrix; (tm) treemeasure.patristic_distance under current / never-made / stale encodings x refresh flag, compared with "
+        "the model op `tm`; (mrca) same trees x random/all taxon subsets x start node x {current, never encoded, stale} encodings x refresh flag "
         "x {taxa, taxon_labels, leafset_bitmask}; (nj/upgma) additive / ultrametric dyadic matrices generated from random trees with positive "
         "lengths (binary and polytomous), the same read back from CSV, unit-length (edge count) matrices, and arbitrary dyadic matrices "
         "(model comparison only); thorough adds every shape <= 6 leaves. Non-trivial = >= 4 leaves.")
@@ -26,25 +27,29 @@ MODELLED_NOT_VERIFIED = [
     "frac_nj_rowsum_invariant, frac_nj_tree, frac_upgma_tree speak about `entries fracLen taxonKey`, `njTree`, `upgmaTree` at `Frac`; the summaries "
     "(meanPairwise/meanNearest) and Tree.mrca (no arithmetic) are not transported separately. binary64 rounding in the library is not modelled "
     "(exact comparison on dyadic inputs; means, normalised values and NJ branch lengths within 1e-9)",
-    "C14: NJ/UPGMA consistency (a Q-minimal pair of an additive metric is a cherry; a minimal pair of an ultrametric is a sibling pair) is "
-    "NOT proved; clause (d) is tested: executed on implementation and model for generated additive/ultrametric inputs and compared with the generating tree",
-    "C14: CSV formatting/parsing, NodeDistanceMatrix and treemeasure.patristic_distance are judged by the oracle only (not modelled)",
+    "C14: NJ consistency (a Q-minimal pair of an additive metric with positive internal edges is a cherry) is NOT proved: "
+    "nj_realises_of_cherry_picking_partial proves the induction over contractions with that lemma as its hypothesis (unconditional for <= 3 taxa: "
+    "nj_realises_three), so the NJ half of clause (d) is tested: executed on implementation and model for generated additive inputs and "
+    "compared with the generating tree. The UPGMA half is proved (upgma_recovers_tree)",
+    "C14: CSV formatting/parsing and NodeDistanceMatrix are judged by the oracle only (not modelled); treemeasure.patristic_distance is "
+    "modelled (treePatristic, op `tm`) with every taxon on exactly one node (find_node is rendered as a search below the common ancestor)",
     "C14: on an unrooted tree a requested refresh collapses a basal bifurcation (encode_bipartitions default); the mrca clause is evaluated on the tree as it is after the call",
 ]
-EXPLANATION = ("Theorems (Props/C14.lean), for every tree and every number type with the stated laws: (a) pdm_pairs_once (the pairing loop writes one "
-               "cell per unordered leaf pair, a permutation of all pairs i<j, polytomies and unary nodes included), pdm_cells_nodup, pdm_spec / "
+EXPLANATION = ("Theorems (Props/C14.lean), for every tree and every number type with the stated laws: (a) pdm_pairs_once, pdm_cells_nodup, pdm_spec / "
                "pdm_lookup_spec (each cell = length and edge count of the unique path, ancestor = node where it turns), pdm_symm, pdm_diag, "
-               "pdm_mrca_spec; (b) distances_spec, mean_pairwise_spec (either weighting, any filter/normalisation: explicit (sum/norm)/count over "
-               "retained unordered pairs, Null iff none), mntd_spec + nearest_spec (nearest-taxon mean read from the compiled table = mean of true "
-               "minima of path values); (c) tree_mrca_spec + tree_mrca_deepest, tree_mrca_reencode_spec (refresh OR never-encoded start; also "
-               "None iff the start node does not cover), tree_mrca_current_spec / tree_mrca_none_current, tree_mrca_value_error, "
-               "tree_mrca_refresh_current, tree_mrca_stale_example (decided counter-example); (d) nj_rowsum_invariant (symmetry only on the n taxa), "
-               "nj_lengths_formula, nj_cherry_step, nj_terminates, upgma_avg_spec, upgma_ultrametric / upgma_tree_ultrametric (every result tree is "
-               "ultrametric, heights = half the joined distance), upgma_terminates; at the driver's own type Frac: frac_pdm_spec, "
-               "frac_pdm_lookup_spec, frac_mean_pairwise, frac_nj_rowsum_invariant, frac_nj_tree, frac_upgma_tree (via toRat homomorphism + naturality). "
-               "PARTIAL: nj_recovers_tree_partial / upgma_recovers_tree_partial are one-step lemmas; the consistency lemmas (Q-minimal pair of an "
-               "additive metric is a cherry; minimal pair of an ultrametric is a sibling pair) are NOT proved, so the reconstruction clause (d) is "
-               "testing: implementation and model are executed on generated additive / ultrametric inputs and compared with the generating tree.")
+               "pdm_mrca_spec; treemeasure_climb_spec / treemeasure_spec / treemeasure_current_spec / frac_treemeasure_spec (Tree.mrca descent + the two climbs of treemeasure.patristic_distance = "
+               "the unique path length); (b) distances_spec, mean_pairwise_spec, mntd_spec + nearest_spec; (c) tree_mrca_spec + tree_mrca_deepest, "
+               "tree_mrca_reencode_spec, tree_mrca_current_spec / tree_mrca_none_current, tree_mrca_value_error, tree_mrca_refresh_current, "
+               "tree_mrca_stale_example; (d) UPGMA in full: upgma_realises (any matrix with the strong triangle inequality is realised exactly), "
+               "ultra_three_point, upgma_inverts_ultrametric_tree, ultra_unique, upgma_recovers_tree (the source ultrametric tree with positive "
+               "internal edges is returned up to child swaps, lengths included), upgma_avg_spec, upgma_ultrametric, upgma_terminates; NJ: "
+               "nj_rowsum_invariant, nj_lengths_formula, nj_cherry_step, nj_terminates, nj_realises_three (<= 3 taxa unconditional). At the driver's "
+               "own type Frac (toRat homomorphism + naturality): frac_pdm_spec, frac_pdm_lookup_spec, frac_mean_pairwise_both, frac_mntd, "
+               "frac_nj_rowsum_invariant, frac_nj_tree, frac_upgma_tree, frac_upgma_recovers_tree. "
+               "PARTIAL: nj_realises_of_cherry_picking_partial (NJ inverts the matrix IF every picked pair is a cherry: the induction over "
+               "contractions) and nj_recovers_tree_partial (one step); the cherry-picking consistency lemma for additive metrics is NOT proved, so "
+               "the NJ reconstruction clause is testing: implementation and model are executed on generated additive inputs and compared with the "
+               "generating tree. upgma_recovers_tree_partial is superseded by upgma_recovers_tree.")
 
 TOL = 1e-9
 
@@ -282,8 +287,8 @@ def case_pdm(ctx, dendropy, case, pending):
 
 
 # ------------------------------------------------------------------ op mrca
-def stale_mutation(tree, ids, how):
-    """change the tree without re-encoding"""
+def stale_mutation(tree, ids, how, dendropy=None):
+    """change the tree without re-encoding; returns the taxon bit whose presence on the tree changed (graft / prune), else None"""
     nodes = [ids.node(i) for i in range(len(ids))]
     lv = [x for x in nodes if not x._child_nodes]
     if how[0] == "swap" and len(lv) >= 2:
@@ -299,6 +304,34 @@ def stale_mutation(tree, ids, how):
                 y = dest[how[2] % len(dest)]
                 x._parent_node.remove_child(x)
                 y.add_child(x)
+    elif how[0] == "graft" and dendropy is not None:
+        # a new leaf with a taxon that was not on the tree: the leaf set grows
+        tns = tree.taxon_namespace
+        used = {int(x.taxon.label[1:]) for x in lv if x.taxon is not None}
+        by_bit = {int(t.label[1:]): t for t in tns}
+        k = 0
+        while k in used:
+            k += 1
+        if k not in by_bit:
+            if k != len(tns):
+                return None
+            by_bit[k] = tns.new_taxon(label="t%d" % k)
+        dest = [y for y in nodes if y._child_nodes]
+        if not dest:
+            return None
+        nd = dendropy.Node()
+        nd.taxon = by_bit[k]
+        nd.edge.length = 1.0
+        dest[how[1] % len(dest)].add_child(nd)
+        return k
+    elif how[0] == "prune" and len(lv) >= 3:
+        # a leaf goes away: the leaf set shrinks
+        cand = [x for x in lv if x._parent_node is not None and len(x._parent_node._child_nodes) >= 2 and x.taxon is not None]
+        if cand:
+            x = cand[how[1] % len(cand)]
+            x._parent_node.remove_child(x)
+            return int(x.taxon.label[1:])
+    return None
 
 
 def label_masks(tree):
@@ -328,22 +361,25 @@ def case_mrca(ctx, dendropy, case, pending):
     enc = case["enc"]
     if enc in ("fresh", "stale"):
         tree.encode_bipartitions(suppress_unifurcations=False, collapse_unrooted_basal_bifurcation=False)
+    affected = None
     if enc == "stale":
-        stale_mutation(tree, ids, case["how"])
+        affected = stale_mutation(tree, ids, case["how"], dendropy)
     toks2, _ = tu.encode_tree(tree, ids)          # ids keep their numbers; this is the tree the query runs on
     order = tu.Ids().assign_preorder(tree)
-    if [ids.of(order.node(i)) for i in range(len(order))] != list(range(len(order))):
-        # protocol numbering must be pre-order: renumber
+    if len(order) != len(ids) or [ids.of(order.node(i)) for i in range(len(order))] != list(range(len(order))):
+        # protocol numbering must be pre-order over the nodes now on the tree: renumber
         ids = order
         toks2, _ = tu.encode_tree(tree, ids)
     stored = [ids.node(i).edge.bipartition.leafset_bitmask for i in range(len(ids))]
     target = case["target"]
+    if affected is not None and case.get("aim"):
+        target |= 1 << affected       # ask about the taxon whose presence changed since the encoding
     start = case["start"] % len(ids)
     refresh = case["refresh"]
     route = case["route"]
     if not rooted and len(tree.seed_node._child_nodes) == 2 and ids.node(start)._parent_node is tree.seed_node:
         start = 0       # a re-encoding may dissolve a child of an unrooted seed: keep the start node out of it
-    ctx.case(["mrca", toks, rooted, enc, case.get("how"), target, start, refresh, route],
+    ctx.case(["mrca", toks, rooted, enc, case.get("how"), target, start, refresh, route, case.get("aim")],
              len(leaves_lr(tree)) >= 4, sample=case, kind="mrca-" + enc)
     by_bit = {int(t.label[1:]): t for t in tns}      # tree_from_tokens labels the taxon of bit k `t<k>`
     tbits = [i for i in range(target.bit_length()) if target >> i & 1]
@@ -390,6 +426,57 @@ def case_mrca(ctx, dendropy, case, pending):
     line = "mrca %d %d %d %d %s %s" % (1 if rooted else 0, 1 if refresh else 0, target, start,
                                        ",".join(map(str, stored)) or "-", " ".join(toks2))
     pending.append((line, case, got if got == "ValueError" else got + " | " + after, "exact"))
+
+
+def case_tm(ctx, dendropy, case, pending):
+    """treemeasure.patristic_distance under current / never-made / stale encodings and both refresh settings:
+    model comparison (op `tm`) and, where the statement applies, the path-length oracle"""
+    from dendropy.calculate import treemeasure
+    toks = case["tree"]
+    rooted = case["rooted"]
+    tree, ids = tu.tree_from_tokens(dendropy, toks, rooted=rooted)
+    tns = tree.taxon_namespace
+    enc = case["enc"]
+    if enc in ("fresh", "stale"):
+        tree.encode_bipartitions(suppress_unifurcations=False, collapse_unrooted_basal_bifurcation=False)
+    affected = None
+    if enc == "stale":
+        affected = stale_mutation(tree, ids, case["how"], dendropy)
+    order = tu.Ids().assign_preorder(tree)
+    if len(order) != len(ids) or [ids.of(order.node(i)) for i in range(len(order))] != list(range(len(order))):
+        ids = order
+    toks2, _ = tu.encode_tree(tree, ids)
+    stored = [ids.node(i).edge.bipartition.leafset_bitmask for i in range(len(ids))]
+    refresh = case["refresh"]
+    lv = leaves_lr(tree)
+    ctx.case(["tm", toks, rooted, enc, case.get("how"), case["a"], case["b"], refresh, case.get("aim")], len(lv) >= 4, sample=case, kind="tm-" + enc)
+    by_bit = {int(t.label[1:]): t for t in tns}
+    a, b = case["a"], case["b"]
+    if affected is not None and case.get("aim"):
+        b = affected
+    by_bit = {int(t.label[1:]): t for t in tns}
+    if a not in by_bit or b not in by_bit:
+        return
+    masks0 = label_masks(tree)
+    nodes = tu.walk(tree.seed_node)
+    current = all(stored[ids.of(x)] == masks0[id(x)] for x in nodes)
+    wellformed = good_tree(tree) and all(x.taxon is None for x in nodes if x._child_nodes) and all(masks0[id(x)] for x in nodes)
+    want = oracle_pairs(tree, ids) if wellformed else {}
+    try:
+        with time_limit(30):
+            d = treemeasure.patristic_distance(tree, by_bit[a], by_bit[b], is_bipartitions_updated=not refresh)
+        got = fr(d)
+    except AttributeError:
+        got = "AttributeError"
+    except ValueError:
+        got = "ValueError"
+    if wellformed and (current or refresh or stored[0] == 0) and all(any(x.taxon is by_bit[k] for x in lv) for k in (a, b)):
+        w = Fraction(0) if a == b else want[(a, b)][0]
+        if got in ("AttributeError", "ValueError") or Fraction(got) != w:
+            ctx.fail("treemeasure", "treemeasure.patristic_distance(bits %d,%d, encoding %s, refresh=%s) = %s; path length is %s" % (
+                a, b, enc, refresh, got, fr(w)), case)
+    line = "tm %d %d %d %d %s %s" % (1 if rooted else 0, 1 if refresh else 0, a, b, ",".join(map(str, stored)) or "-", " ".join(toks2))
+    pending.append((line, case, got, "exact"))
 
 
 # ------------------------------------------------------------------ op nj / upgma
@@ -669,9 +756,20 @@ def gen_mrca(ctx, dendropy, rng, max_leaves):
     par = toks[1:1 + nn]
     if not rooted and start != 0 and par.count("0") == 2:
         start = 0       # a refresh may dissolve a child of the seed: keep the start node out of it
-    return {"op": "mrca", "tree": toks, "rooted": rooted, "enc": enc, "how": (rng.choice(["swap", "move"]), rng.randrange(100), rng.randrange(100)),
+    return {"op": "mrca", "tree": toks, "rooted": rooted, "enc": enc, "how": (rng.choice(["swap", "move", "graft", "prune"]), rng.randrange(100), rng.randrange(100)), "aim": rng.random() < 0.7,
             "target": target, "start": start, "refresh": refresh, "route": rng.choice(["taxa", "labels", "mask"]),
             "explicit_start": rng.random() < 0.3}
+
+
+def gen_tm(ctx, dendropy, rng, max_leaves):
+    toks, nn, bits = gen_tokens(ctx, dendropy, rng, max_leaves)
+    r = rng.random()
+    enc = "fresh" if r < 0.45 else ("never" if r < 0.7 else "stale")
+    a = rng.choice(bits)
+    b = rng.choice(bits) if rng.random() < 0.9 else a
+    return {"op": "tm", "tree": toks, "rooted": rng.choice([True, True, False, None]), "enc": enc,
+            "how": (rng.choice(["swap", "move", "graft", "prune"]), rng.randrange(100), rng.randrange(100)), "aim": rng.random() < 0.7, "a": a, "b": b,
+            "refresh": rng.random() < 0.5}
 
 
 def positive_lengths(rng, toks, ultrametric):
@@ -729,7 +827,7 @@ def gen_matrix(ctx, rng, max_n):
 
 def one_case(ctx, dendropy, case, pending):
     op = case["op"]
-    fn = {"pdm": case_pdm, "mrca": case_mrca, "recon": case_recon, "matrix": case_matrix}.get(op)
+    fn = {"pdm": case_pdm, "mrca": case_mrca, "recon": case_recon, "matrix": case_matrix, "tm": case_tm}.get(op)
     if fn is None:
         raise ValueError(op)
     try:
@@ -775,8 +873,10 @@ def run(ctx):
         ml = max_leaves if rng.random() < 0.85 else 12
         if r < 0.36:
             case = gen_pdm(ctx, dendropy, rng, ml)
-        elif r < 0.72:
+        elif r < 0.62:
             case = gen_mrca(ctx, dendropy, rng, ml)
+        elif r < 0.72:
+            case = gen_tm(ctx, dendropy, rng, ml)
         elif r < 0.92:
             case = gen_recon(ctx, dendropy, rng, min(ml, ctx.pick(10, 22)))
         else:
